@@ -1,17 +1,17 @@
-SPECIFICATION SimSpec
+SPECIFICATION Spec
 CONSTANTS
-  Keys = {1, 2}
+  Keys = {1}
   Clients = {1, 2, 3}
-  MaxSize = 4
-  Costs = {1, 3}
+  MaxSize = 1
+  Costs = {1}
   TTLs = {0}
   QCap = 2
   BatchMax = 2
-  MaxEnt = 9
-  MaxTime = 4
+  MaxEnt = 3
+  MaxTime = 1
   OpsPerClient = 3
-  Allowed <- AllowAcct
-  WithTicker = FALSE
+  Allowed <- AllowClose
+  WithTicker = TRUE
   Thresh = 30
   AdvSteps = {1}
   StallOnly = FALSE
@@ -21,9 +21,6 @@ CONSTANTS
   FixD7 = TRUE
   FixD16 = TRUE
   FixD10a = TRUE
-  Depth = 60
-  Gates <- GatesAll
-  Shift = 30
-  Start = 3
-  MaxTicks = 0
-CONSTRAINT Export
+VIEW view
+INVARIANTS TypeOK
+CHECK_DEADLOCK TRUE
